@@ -934,6 +934,10 @@ impl CompositionGraph {
 
     /// Marks the given node for export when the composition graph is encoded.
     ///
+    /// A type definition node is always exported under exactly one name; exporting
+    /// it under another name renames it. Any other node may be exported under
+    /// several names.
+    ///
     /// Returns an error if the provided export name is invalid.
     ///
     /// # Panics
@@ -973,7 +977,16 @@ impl CompositionGraph {
         };
 
         log::debug!("exporting node {index} as `{name}`", index = node.0.index());
-        self.graph[node.0].export = Some(name.clone());
+        let exported = &mut self.graph[node.0];
+        let previous = exported.export.replace(name.clone());
+        // A type definition is exported under exactly one name (the one it is encoded
+        // with): exporting it under another name renames it, so the previous name must
+        // not remain in the export map.
+        if matches!(exported.kind, NodeKind::Definition) {
+            if let Some(previous) = previous {
+                self.exports.shift_remove(&previous);
+            }
+        }
         let prev = self.exports.insert(name, node.0);
         assert!(prev.is_none());
         Ok(())
